@@ -31,7 +31,8 @@ PROPS = {
     ),
     "C10": dict(
         harness="sim/c10", cmd="zzverif_c10", race=True, minimise_mode=True, crash_is_violation=True,
-        selftest_worker=("2", "3"),  # a worker that also draws workloads over types compiled from generated bundles
+        selftest_worker=("2", "3"),
+        coldstart_procs=128,  # a worker that also draws workloads over types compiled from generated bundles
         rewrite=["-m", M_PKGS, "-y", Y_PKGS,
                  "-every", "lib/j5schema/schema_cache.go,lib/j5schema/schema_set.go,lib/j5reflect/reflect.go,internal/codec/codec.go",
                  "-fieldassign", "lib/j5schema",
@@ -461,6 +462,27 @@ def check(prop, tier):
     st_dir = os.path.join(d, "selftest")
     os.makedirs(st_dir)
     results, crashed = collect(procs, time.time() + budget * 3 + 600)
+    if cfg.get("coldstart_procs"):
+        # cold-start slice: many short-lived processes whose FIRST contact with the code under test is a
+        # simulated concurrent run (what is initialised once per process is initialised under contention)
+        cs_results = []
+        n_cs = cfg["coldstart_procs"] * (4 if tier == "thorough" else 1)
+        for base in range(0, n_cs, 16):
+            cprocs = []
+            for k in range(base, min(n_cs, base + 16)):
+                out = os.path.join(outdir, "cs%d.json" % k)
+                env = goenv({"GOMAXPROCS": str([1, 4, 16][k % 3]),
+                             "GORACE": "log_path=%s halt_on_error=0 exitcode=0 history_size=4" % os.path.join(outdir, "race.cs%d" % k)})
+                cmd = [binary, "-mode", "worker", "-seed", str(seed * 1000003 + 7919 * (k // 32 + 1)), "-worker", "0", "-workers", "1",
+                       "-budget", "20", "-max-programs", "1", "-coldstart", "-coldstart-k", str(k), "-out", out] + [a for a in tcfg["args"] if a != "-deep"]
+                errf = open(os.path.join(outdir, "cs%d.stderr" % k), "w")
+                cprocs.append((1000 + k, subprocess.Popen(cmd, env=env, stdout=subprocess.DEVNULL, stderr=errf, cwd=outdir), out, errf))
+            r2, c2 = collect(cprocs, time.time() + 180)
+            cs_results += r2
+            crashed += c2
+        for r in cs_results:
+            (r.setdefault("stats", {}).setdefault("probes", {}))["cold_start_processes"] = 1
+        results += cs_results
     if crashed and cfg.get("crash_needs_phase"):
         # A program whose REFERENCE execution kills the process (e.g. runaway recursion in the compiler) says
         # nothing about this property; skip it and run that worker's stride again (at most 3 times).
